@@ -193,6 +193,30 @@ theorem dispatch_spec (pre : List Op) (e : Nat) (st : Bool) (post : List Op) :
   obtain ⟨s, outs, o, h1, h2, h3⟩ := output_at pre (.dispatch e st) post
   exact ⟨s, outs, h1, by rw [h2, h3]⟩
 
+/-- (b, repeated registrations) Nothing above asks the registered callables to be distinct: a
+callable registered `n` times for an event (the same object, or equal bound methods of one object;
+at one priority or at several) is `n` registrations, each with its own rank in `specOrder`.  For
+every history in which no listener of the event stops propagation, a dispatch walks through the
+whole specification order - one call per registration, at the rank of that registration - so every
+callable is called exactly as often as it was registered for the event. -/
+theorem registration_called_per_registration (pre : List Op) (e : Nat) (post : List Op)
+    (h : ∀ r ∈ logOf pre, r.ev = e → r.l.stops = false) :
+    ∃ s outs called, run init (pre ++ .dispatch e false :: post) = .ok (s, outs) ∧
+      outs[pre.length]? = some (.called called false) ∧
+      called = (specOrder (logOf pre) e).map (fun r => r.l) ∧
+      ∀ l, called.count l = ((regsFor (logOf pre) e).map (fun r => r.l)).count l := by
+  obtain ⟨s, outs, h1, h2⟩ := dispatch_spec pre e false post
+  rw [callSeq_all (logOf pre) e h] at h2
+  have hany : (specOrder (logOf pre) e).any (fun r => r.l.stops) = false := by
+    rw [List.any_eq_false]
+    intro r hr
+    have := (specOrder_mem _ e r).1 hr
+    simp [h r this.1 this.2]
+  refine ⟨s, outs, _, h1, ?_, rfl, ?_⟩
+  · rw [h2, hany]; rfl
+  · intro l
+    exact ((specOrder_perm (logOf pre) e).map _).count_eq l
+
 /-! ### Event objects of user classes (the public stop protocol)
 
 `Event` is a base class applications derive from; a derived class may implement
@@ -480,6 +504,28 @@ example : ∃ s outs, run init [.add 0 la 0, .dispatch 0 false, .add 0 lc 7, .di
   have h := dispatch_spec [.add 0 la 0, .dispatch 0 false, .add 0 lc 7] 0 false []
   have e : callSeq (logOf [.add 0 la 0, .dispatch 0 false, .add 0 lc 7]) 0 false
       = [⟨0, 7, lc⟩, ⟨0, 0, la⟩] := by decide
+  rw [e] at h
+  exact h
+
+/-- ONE callable (`la`) registered three times for one event, at priorities 10, -10 and 0 around `lc` at 0:
+the dispatch calls it once per registration, each at the rank of that registration -/
+example : ∃ s outs, run init [.add 0 la 10, .add 0 lc 0, .add 0 la (-10), .add 0 la 0, .dispatch 0 false] = .ok (s, outs) ∧
+    outs[4]? = some (.called [la, lc, la, la] false) := by
+  obtain ⟨s, outs, called, h1, h2, h3, _⟩ :=
+    registration_called_per_registration [.add 0 la 10, .add 0 lc 0, .add 0 la (-10), .add 0 la 0] 0 [] (by decide)
+  have e : (specOrder (logOf [.add 0 la 10, .add 0 lc 0, .add 0 la (-10), .add 0 la 0]) 0).map (fun r => r.l)
+      = [la, lc, la, la] := by decide
+  rw [e] at h3
+  subst h3
+  exact ⟨s, outs, h1, h2⟩
+
+/-- ... and a stopping listener (`lb`) between two registrations of the same callable ends the dispatch
+after the first of them (via `dispatch_spec`) -/
+example : ∃ s outs, run init [.add 0 la (-10), .add 0 lb 0, .add 0 la 10, .dispatch 0 false] = .ok (s, outs) ∧
+    outs[3]? = some (.called [la, lb] true) := by
+  have h := dispatch_spec [.add 0 la (-10), .add 0 lb 0, .add 0 la 10] 0 false []
+  have e : callSeq (logOf [.add 0 la (-10), .add 0 lb 0, .add 0 la 10]) 0 false
+      = [⟨0, 10, la⟩, ⟨0, 0, lb⟩] := by decide
   rw [e] at h
   exact h
 
